@@ -1,5 +1,5 @@
 (* C09/MmrComplete.v — completeness of MKTree::compute_proof / MKProof::verify,
-   as a finite-domain theorem: every tree of at most 12 leaves (canonical
+   as a finite-domain theorem: every tree of at most 15 leaves (canonical
    distinct leaves BLit [i]) and every non-empty selection of its leaves (in
    increasing order).  The bound is part of the statement; beyond it the
    correspondence run samples sizes up to 500 leaves against the real code. *)
@@ -30,14 +30,14 @@ Definition complete_at (n : nat) (sel : list N) : bool :=
   end.
 Definition complete_for (n : nat) : bool := forallb (complete_at n) (sublists (nseqN 0 n)).
 
-Lemma complete_upto_12 : forallb complete_for (seq 1 12) = true.
+Lemma complete_upto_15 : forallb complete_for (seq 1 15) = true.
 Proof. vm_compute. reflexivity. Qed.
 
-Theorem mmr_complete_bounded : forall n sel, (1 <= n <= 12)%nat -> In sel (sublists (nseqN 0 n)) ->
+Theorem mmr_complete_bounded : forall n sel, (1 <= n <= 15)%nat -> In sel (sublists (nseqN 0 n)) ->
   complete_at n sel = true.
 Proof.
   intros n sel Hn Hin.
-  assert (H := complete_upto_12). rewrite forallb_forall in H.
+  assert (H := complete_upto_15). rewrite forallb_forall in H.
   assert (Hc : complete_for n = true) by (apply H; apply in_seq; lia).
   unfold complete_for in Hc. rewrite forallb_forall in Hc. apply Hc. exact Hin.
 Qed.
